@@ -476,8 +476,8 @@ def Event.ofRes : Res Prim → Event
   | .ok p => .prim p
   | .error e => .err e
 
-/-- the `deser` method (de.rs:142 / de.rs:709).  NB the on-demand version has no arm for the rgb
-marker: it falls to the token-id arm and asks the resolver about 0x0243. -/
+/-- the `deser` method (de.rs:142 / de.rs:709) on a token whose payload is at hand.  (The on-demand
+version's rgb arm reads the block from the input first: `normTok`.) -/
 def deser (c : Cfg) (t : Tok) : Event :=
   match t with
   | .u32 n => .prim (.u32 n) | .u64 n => .prim (.u64 n) | .i32 n => .prim (.i32 n) | .i64 n => .prim (.i64 n)
@@ -512,13 +512,26 @@ def leafOf (ty : Ty) : Event → Res String
   | .color _ => .error .type
   | .err e => .error e
 
+/-- On-demand only: the token is a bare lexeme id, and every way of consuming the rgb marker
+(`deser`'s rgb arm de.rs:733, `deserialize_seq` de.rs:944, `skip_value`) first reads the block
+`{ r g b [a] }` from the input; from then on it is what the streaming reader had delivered as one
+token.  `deserialize_option` hands the unread token on (`visit_some(self)`). -/
+def normTok (p : Path) (ty : Ty) (t : Tok) (rest : List Tok) : Res (Tok × List Tok) :=
+  match p, ty, t with
+  | .ondemand, .opt _, _ => .ok (t, rest)
+  | .ondemand, _, .id n =>
+    if n == RGB_ID then
+      match readRgb rest with
+      | some (col, r) => .ok (.rgb col, r)
+      | none => .error .other
+    else .ok (t, rest)
+  | _, _, _ => .ok (t, rest)
+
 /-- key of a struct: `deserialize_identifier` (= `deser`), or for token structs `deserialize_u16`
 (de.rs:230 / 789: an id token is visited as `u16` without consulting the resolver). -/
 def seqFieldKey (c : Cfg) (fs : Fields) (byToken : Bool) (t : Tok) : Res (Option Nat) :=
   match byToken, t with
-  | true, .id n => if n == RGB_ID then
-        (match deser c t with | .prim p => fieldOfPrim fs true p | .err e => .error e | _ => .error .type)
-      else .ok (fs.posTok n 0)
+  | true, .id n => .ok (fs.posTok n 0)
   | _, _ =>
     match deser c t with
     | .prim p => fieldOfPrim fs byToken p
@@ -542,7 +555,10 @@ mutual
 /-- `TySeed(ty).deserialize(TokenDeserializer { token })`; `rest` is the input after the token. -/
 def deTok (p : Path) (c : Cfg) : Nat → Ty → Tok → List Tok → Res (String × List Tok)
   | 0, _, _, _ => .error .fuel
-  | f + 1, ty, t, rest =>
+  | f + 1, ty, t0, rest0 =>
+    match normTok p ty t0 rest0 with
+    | .error e => .error e
+    | .ok (t, rest) =>
     match ty with
     | .ign => match skipTok p t rest with | .ok r => .ok ("ign", r) | .error e => .error e
     | .opt inner =>
@@ -565,12 +581,6 @@ def deTok (p : Path) (c : Cfg) : Nat → Ty → Tok → List Tok → Res (String
         | .ok (items, r) => .ok ("[" ++ joinComma items ++ "]", r)
         | .error e => .error e
       | .rgb col => (colorVisit (.seq et) col).map (fun v => (v, rest))
-      | .id n =>
-        if p == .ondemand && n == RGB_ID then
-          match readRgb rest with
-          | some (col, r) => (colorVisit (.seq et) col).map (fun v => (v, r))
-          | none => .error .other
-        else (leafOf (.seq et) (deser c t)).map (fun v => (v, rest))
       | _ => (leafOf (.seq et) (deser c t)).map (fun v => (v, rest))
     | .map vt =>
       match t with
@@ -631,7 +641,10 @@ def deStruct (p : Path) (c : Cfg) : Nat → Fields → Bool → Bool → List To
     match nextKey p root (f + 1) toks with
     | .error e => .error e
     | .ok (none, rest) => (structFinish fs slots []).map (fun v => (v, rest))
-    | .ok (some kt, rest) =>
+    | .ok (some kt0, rest0) =>
+      match normTok p .any kt0 rest0 with
+      | .error e => .error e
+      | .ok (kt, rest) =>
       match seqFieldKey c fs byToken kt with
       | .error e => .error e
       | .ok none =>
